@@ -45,10 +45,13 @@ def evaluate_worktree(worktree, prop, tag):
     sim = "/tmp/mutsim-%s" % tag
     out = "/tmp/mutout-%s" % tag
     sh(["rm", "-rf", sim, out])
-    sh(["rsync", "-a", "--exclude", "target", os.path.join(VERIF, "sim") + "/", sim + "/"])
+    # (VERIF_SIM_SRC: evaluate with a development copy of the simulator instead of /verif/sim)
+    src = os.environ.get("VERIF_SIM_SRC", os.path.join(VERIF, "sim"))
+    sh(["rsync", "-a", "--exclude", "target", "--exclude", "target-alt", src + "/", sim + "/"])
     os.makedirs(out, exist_ok=True)
     man = os.path.join(sim, "tera-shadow", "Cargo.toml")
-    txt = open(man).read().replace('path = "/repo/tera/src/lib.rs"', 'path = "%s/tera/src/lib.rs"' % worktree)
+    import re as _re
+    txt = _re.sub(r'path = "[^"]*/tera/src/lib.rs"', 'path = "%s/tera/src/lib.rs"' % worktree, open(man).read())
     open(man, "w").write(txt)
     ENV_EXTRA.update({"VERIF_SIM_DIR": sim, "VERIF_OUT_DIR": out})
     res = {"runs": [], "worktree": worktree}
